@@ -75,6 +75,79 @@ Proof.
   - inversion H. reflexivity.
 Qed.
 
+(* ---------------------------------------------------------------------------------------------- local updates of one node *)
+Lemma lookup_upd_dom : forall h n nd m, lookup (upd h n nd) m = None <-> lookup h m = None.
+Proof.
+  intros h n nd m. rewrite lookup_upd. destruct (Nat.eqb_spec m n) as [->|Hne]; [|tauto].
+  destruct (lookup h n); split; intros; congruence.
+Qed.
+
+Lemma upd_has_parent : forall h n nd nd' c p, lookup h n = Some nd -> nk nd' = nk nd -> pars nd' = pars nd ->
+  (nk nd = KLazy -> incl (node_children nd) (node_children nd')) ->
+  has_parent h c p -> has_parent (upd h n nd') c p.
+Proof.
+  intros h n nd nd' c p E K P L HP. induction HP as [c x p Ex I|c x m p Ex Kx I _ IH].
+  - destruct (Nat.eq_dec c n) as [->|Hne].
+    + rewrite E in Ex. inversion Ex. subst x. eapply HP_own; [eapply lookup_upd_same; exact E|rewrite P; exact I].
+    + eapply HP_own; [rewrite lookup_upd_other; eassumption|exact I].
+  - destruct (Nat.eq_dec c n) as [->|Hne].
+    + rewrite E in Ex. inversion Ex. subst x. eapply HP_lazy; [eapply lookup_upd_same; exact E|congruence|apply (L Kx); exact I|exact IH].
+    + eapply HP_lazy; [rewrite lookup_upd_other; eassumption|exact Kx|exact I|exact IH].
+Qed.
+
+Lemma Inv_update : forall s n nd nd', Inv s -> lookup (hp s) n = Some nd ->
+  nk nd' = nk nd -> pars nd' = pars nd -> flg nd' = flg nd ->
+  (forall c, In c (node_children nd') -> lookup (hp s) c <> None /\ (live s n = true -> live s c = true)) ->
+  (flg nd = FTrue -> incl (node_children nd') (node_children nd)) ->
+  (nk nd = KLazy -> incl (node_children nd) (node_children nd')) ->
+  Inv (with_hp s (upd (hp s) n nd')).
+Proof.
+  intros s n nd nd' [HI1 HI0 [C1 [C2 C3]]] E K P Fl Ch Sub Lz.
+  assert (FlagSame : forall x, flag_true (upd (hp s) n nd') x = flag_true (hp s) x).
+  { intros x. unfold flag_true. rewrite lookup_upd. destruct (Nat.eqb_spec x n) as [->|Hne]; [|reflexivity].
+    rewrite E, Fl. reflexivity. }
+  split.
+  - intros p F L nd2 c E2 Hc. cbn in *. rewrite FlagSame in F.
+    destruct (Nat.eq_dec p n) as [->|Hne].
+    + erewrite lookup_upd_same in E2; [|exact E]. inversion E2. subst nd2.
+      assert (F0 : flg nd = FTrue).
+      { unfold flag_true in F. rewrite E in F. destruct (flg nd); cbn in F; congruence. }
+      destruct (HI1 n F L nd c E (Sub F0 c Hc)) as [Fc Pc].
+      split; [rewrite FlagSame; exact Fc|eapply upd_has_parent; eassumption].
+    + rewrite lookup_upd_other in E2; [|exact Hne].
+      destruct (HI1 p F L nd2 c E2 Hc) as [Fc Pc].
+      split; [rewrite FlagSame; exact Fc|eapply upd_has_parent; eassumption].
+  - intros p c Hc L. cbn in *. destruct (child_lookup _ _ _ Hc) as [nd2 [E2 Hin]].
+    destruct (Nat.eq_dec p n) as [->|Hne].
+    + erewrite lookup_upd_same in E2; [|exact E]. inversion E2. subst nd2. apply (Ch c Hin). exact L.
+    + rewrite lookup_upd_other in E2; [|exact Hne]. eapply HI0; [eapply child_intro; eassumption|exact L].
+  - split.
+    + intros p c Hc. cbn in *. destruct (child_lookup _ _ _ Hc) as [nd2 [E2 Hin]].
+      intros Hnone. apply lookup_upd_dom in Hnone. revert Hnone.
+      destruct (Nat.eq_dec p n) as [->|Hne].
+      * erewrite lookup_upd_same in E2; [|exact E]. inversion E2. subst nd2. apply (Ch c Hin).
+      * rewrite lookup_upd_other in E2; [|exact Hne]. eapply C1. eapply child_intro; eassumption.
+    + split; [|exact C3]. intros m Hm. cbn in *. apply C2. intros Hnone. apply Hm. apply lookup_upd_dom. exact Hnone.
+Qed.
+
+(* an accepted unlock_ drops the shared / memmap flags of the nodes it went through: nothing the invariant talks about *)
+Lemma Inv_unshare : forall l s, Inv s -> Inv (with_hp s (unshare (hp s) l)).
+Proof.
+  induction l as [|y r IH]; intros s HI; cbn [unshare].
+  - rewrite with_hp_id. exact HI.
+  - destruct (lookup (hp s) y) as [nd|] eqn:E; [|apply IH; exact HI].
+    destruct (unshare_node_keeps nd) as (K & En & Fl & Pa & _).
+    assert (HI' : Inv (with_hp s (upd (hp s) y (unshare_node nd)))).
+    { apply (Inv_update s y nd (unshare_node nd) HI E K Pa Fl).
+      - intros c Hc. unfold node_children in Hc. rewrite En in Hc. fold (node_children nd) in Hc.
+        destruct HI as [_ HI0 [C1 _]]. split.
+        + eapply C1. eapply child_intro; eassumption.
+        + intros L. eapply HI0; [eapply child_intro; eassumption|exact L].
+      - intros _. unfold node_children. rewrite En. apply incl_refl.
+      - intros _. unfold node_children. rewrite En. apply incl_refl. }
+    specialize (IH _ HI'). cbn in IH. exact IH.
+Qed.
+
 (* ---------------------------------------------------------------------------------------------- unlock_ *)
 Lemma chk_with_hp : forall s1 s2, chk s1 s2 -> s2 = with_hp s1 (hp s2).
 Proof.
@@ -153,7 +226,7 @@ Proof.
     + assert (CE2 : children_exist (hp s2)) by (eapply children_exist_same; [exact S02|apply children_exist_of_closed; exact HC]).
       apply (plock_new_closed _ _ _ _ _ CE2 P p F2 F3 nd3 c E3 Hc).
   - (* every check passed *)
-    inversion U. subst s' out. clear U. rewrite Es2.
+    inversion U. subst s' out. clear U. apply Inv_unshare. rewrite Es2.
     destruct (struct_inv s (hp s2) S02 HI0 HC) as (A & B).
     split; [|exact A|exact B].
     intros p F2 L nd2 c E2 Hc. cbn in *.
@@ -169,61 +242,6 @@ Proof.
     split.
     + rewrite (chk_flag _ _ _ Ck). cbn. unfold flag_true. rewrite (Fr c NRc). exact Fc.
     + apply (Hkp s2 c Ck Pc).
-Qed.
-
-(* ---------------------------------------------------------------------------------------------- local updates of one node *)
-Lemma lookup_upd_dom : forall h n nd m, lookup (upd h n nd) m = None <-> lookup h m = None.
-Proof.
-  intros h n nd m. rewrite lookup_upd. destruct (Nat.eqb_spec m n) as [->|Hne]; [|tauto].
-  destruct (lookup h n); split; intros; congruence.
-Qed.
-
-Lemma upd_has_parent : forall h n nd nd' c p, lookup h n = Some nd -> nk nd' = nk nd -> pars nd' = pars nd ->
-  (nk nd = KLazy -> incl (node_children nd) (node_children nd')) ->
-  has_parent h c p -> has_parent (upd h n nd') c p.
-Proof.
-  intros h n nd nd' c p E K P L HP. induction HP as [c x p Ex I|c x m p Ex Kx I _ IH].
-  - destruct (Nat.eq_dec c n) as [->|Hne].
-    + rewrite E in Ex. inversion Ex. subst x. eapply HP_own; [eapply lookup_upd_same; exact E|rewrite P; exact I].
-    + eapply HP_own; [rewrite lookup_upd_other; eassumption|exact I].
-  - destruct (Nat.eq_dec c n) as [->|Hne].
-    + rewrite E in Ex. inversion Ex. subst x. eapply HP_lazy; [eapply lookup_upd_same; exact E|congruence|apply (L Kx); exact I|exact IH].
-    + eapply HP_lazy; [rewrite lookup_upd_other; eassumption|exact Kx|exact I|exact IH].
-Qed.
-
-Lemma Inv_update : forall s n nd nd', Inv s -> lookup (hp s) n = Some nd ->
-  nk nd' = nk nd -> pars nd' = pars nd -> flg nd' = flg nd ->
-  (forall c, In c (node_children nd') -> lookup (hp s) c <> None /\ (live s n = true -> live s c = true)) ->
-  (flg nd = FTrue -> incl (node_children nd') (node_children nd)) ->
-  (nk nd = KLazy -> incl (node_children nd) (node_children nd')) ->
-  Inv (with_hp s (upd (hp s) n nd')).
-Proof.
-  intros s n nd nd' [HI1 HI0 [C1 [C2 C3]]] E K P Fl Ch Sub Lz.
-  assert (FlagSame : forall x, flag_true (upd (hp s) n nd') x = flag_true (hp s) x).
-  { intros x. unfold flag_true. rewrite lookup_upd. destruct (Nat.eqb_spec x n) as [->|Hne]; [|reflexivity].
-    rewrite E, Fl. reflexivity. }
-  split.
-  - intros p F L nd2 c E2 Hc. cbn in *. rewrite FlagSame in F.
-    destruct (Nat.eq_dec p n) as [->|Hne].
-    + erewrite lookup_upd_same in E2; [|exact E]. inversion E2. subst nd2.
-      assert (F0 : flg nd = FTrue).
-      { unfold flag_true in F. rewrite E in F. destruct (flg nd); cbn in F; congruence. }
-      destruct (HI1 n F L nd c E (Sub F0 c Hc)) as [Fc Pc].
-      split; [rewrite FlagSame; exact Fc|eapply upd_has_parent; eassumption].
-    + rewrite lookup_upd_other in E2; [|exact Hne].
-      destruct (HI1 p F L nd2 c E2 Hc) as [Fc Pc].
-      split; [rewrite FlagSame; exact Fc|eapply upd_has_parent; eassumption].
-  - intros p c Hc L. cbn in *. destruct (child_lookup _ _ _ Hc) as [nd2 [E2 Hin]].
-    destruct (Nat.eq_dec p n) as [->|Hne].
-    + erewrite lookup_upd_same in E2; [|exact E]. inversion E2. subst nd2. apply (Ch c Hin). exact L.
-    + rewrite lookup_upd_other in E2; [|exact Hne]. eapply HI0; [eapply child_intro; eassumption|exact L].
-  - split.
-    + intros p c Hc. cbn in *. destruct (child_lookup _ _ _ Hc) as [nd2 [E2 Hin]].
-      intros Hnone. apply lookup_upd_dom in Hnone. revert Hnone.
-      destruct (Nat.eq_dec p n) as [->|Hne].
-      * erewrite lookup_upd_same in E2; [|exact E]. inversion E2. subst nd2. apply (Ch c Hin).
-      * rewrite lookup_upd_other in E2; [|exact Hne]. eapply C1. eapply child_intro; eassumption.
-    + split; [|exact C3]. intros m Hm. cbn in *. apply C2. intros Hnone. apply Hm. apply lookup_upd_dom. exact Hnone.
 Qed.
 
 (* ---------------------------------------------------------------------------------------------- allocation *)
